@@ -1465,10 +1465,12 @@ def check_C19(tier, seed):
     F.execute_and_validate("C19", exe, scs, out, "c19-sets", TCFG, trace_module=MOD)
     # V: larger random sets, identifiers that are string prefixes of one another, depth <= 6
     idents = ["a", "ab", "abc", "b", "ba", "a1", "a_b", "Ab", "x", "xy", "N", "Ns", "ns", "ns1", "detail"]
+    # class names that merely contain "std::" / "yorel::" (not at the start) or start with the letters std / yorel
+    tricky = ["nonstd::ring", "mystd::a", "lib::std::d", "vendor::yorel::widget", "my_yorel::f", "stdx::e", "yorelx::g", "a::std::b::c"]
     rs = []
     for i in range(400 if tier == "quick" else 8000):
         n = rng.randrange(1, 41)
-        names = sorted({random_qname(rng, idents, 6) for _ in range(n)})
+        names = sorted({random_qname(rng, idents, 6) for _ in range(n)} | ({rng.choice(tricky)} if rng.random() < 0.3 else set()))
         rng.shuffle(names)
         rs.append(F.RawScript("rnd%d" % i, ["n " + x for x in names]))
     F.execute_and_validate("C19", exe, rs, out, "c19-rnd", TCFG, trace_module=MOD)
@@ -1476,7 +1478,9 @@ def check_C19(tier, seed):
     xs = []
     for i in range(600 if tier == "quick" else 12000):
         classes = sorted({random_qname(rng, idents + ["Animal", "Dog", "key", "Matrix"], 3) for _ in range(rng.randrange(1, 6))})
-        classes = [c for c in classes if not c.startswith("std") and not c.startswith("yorel")]
+        if rng.random() < 0.35:
+            classes.append(rng.choice(tricky))
+        classes = [c for c in classes if not c.startswith("std::") and not c.startswith("yorel::")]
         templates = [random_qname(rng, ["tpl", "Box", "ns", "a"], 2) + "_t" for _ in range(2)]
         used = set()
         lines = []
@@ -1759,13 +1763,18 @@ def check_C20(tier, seed):
     for b in range(0, len(scen), 8):
         sources["tmplr%d" % (b // 8)] = TE.program("tmplr%d" % (b // 8), scen[b:b + 8], 5)
     # products on both sides of the 512-element split of aggregate<>
-    sizes = [(27, 19)] if tier == "quick" else [(25, 20), (32, 16), (27, 19), (30, 20)]    # 500, 512, 513, 600
-    for a, bb in sizes:
+    # (a, b, number of not_defined combinations): what is registered must stay on the far side of the split for
+    # some of them, with odd and even counts (the halves of an odd count differ by one)
+    sizes = [(23, 23, 2)] if tier == "quick" else [(25, 20, 3), (32, 16, 0), (27, 19, 0), (27, 19, 1), (23, 23, 2), (30, 20, 7), (40, 40, 1)]
+    for a, bb, nu in sizes:
         K = max(a, bb)
         l1, l2 = list(range(1, a + 1)), list(range(1, bb + 1))
-        und = [[rng.choice(l1), rng.choice(l2)] for _ in range(5)]
-        und = [list(x) for x in {tuple(u) for u in und}]
-        sources["big%d" % (a * bb)] = TE.program("big%d" % (a * bb), [(9000 + a * bb, [l1, l2], und)], K)
+        und = set()
+        while len(und) < nu:
+            und.add((rng.choice(l1), rng.choice(l2)))
+        und = [list(x) for x in sorted(und)]
+        nm = "big%d_%d" % (a * bb, nu)
+        sources[nm] = TE.program(nm, [(9000 + a * bb, [l1, l2], und)], K)
     res = gen.build_and_run(sources)
     F.validate_program_outputs("C20", res, sources, out, "c20", TCFG, MOD)
     if tier == "thorough":
@@ -1859,7 +1868,7 @@ def check_C11(tier, seed):
         out.selftests.append({"label": "address check of a recorded report set to false", "applied": done, "clean_accepted": True, "corrupt_rejected": bool(rj)})
     n = out.action_counts.get("args", 0)
     return F.report("C11", tier, seed, out, t0, LEVEL,
-                    rule="a case = one generated scenario of the family Kind x Shape x Pos x Cat (630 = 7 parameter kinds x 5 inheritance shapes between "
+                    rule="a case = one generated scenario of the family Kind x Shape x Pos x Cat (810 = 9 parameter kinds x 5 inheritance shapes between "
                          "the method's and the definition's class x 3 positions x 6 categories of the neighbouring non-virtual parameter), compiled through "
                          "the macro front end: inside the definition the parameter must designate the D sub-object of the caller's object (every class "
                          "records its own address at construction), the same shared ownership, the non-virtual argument the same referent / value with "
@@ -1969,7 +1978,7 @@ def check_C16(tier, seed):
     st = [json.loads(l) for ls, _ in results for l in ls if l.startswith('{"e":"statics"')]
     ncalls = sum(x["calls"] for x in st)
     nupd = sum(x["updates"] for x in st)
-    if nupd == 0:
+    if nupd == 0 and not out.rejections:
         raise C.ToolFailure("vacuous: the concurrent updater never ran")
     return F.report("C16", tier, seed, out, t0, LEVEL,
                     rule="a case = one concurrent experiment: %d threads issue %d seeded random dispatches each (resolve and operator(), references and "
